@@ -358,7 +358,10 @@ PROPS['C10'] = {
                   'Extend, Rc clone); derive(PartialEq) of Namespace as field-wise equality. ASSUMED zeep contract: create_mod_name_for_namespace returns '
                   '"mod_"+abbreviation (format! text is opaque to Verus). Dropped: the 3-character stem computation in make_abbreviated_namespace '
                   '(pure; its value is irrelevant to uniqueness). Ghost proof blocks are spliced at text anchors. Known finding: RustDocument::extend '
-                  '(merging an imported file) does not preserve the invariant. The envelope xmlns list of write_soap_operation is not covered.',
+                  '(merging an imported file) does not preserve injectivity (its binding-preservation clause is proved since fix 9198111). '
+                  'SECOND PART (translation validation, per corpus/generated program, no solver): the namespace declarations of the EMITTED file are read from '
+                  'the #[yaserde(..)] attribute text and compared: prefix<->URI is a bijection over the file, each struct declares its own prefix, every prefix '
+                  'a member or envelope uses is declared by the struct or by the struct of the member type, one module per target namespace.',
     'assumptions': ['String values are determined by their character sequence', 'iterators visit exactly the elements of the slice'],
 }
 
